@@ -64,7 +64,10 @@ func Tokenize(s string) (toks Tokens) {
 			if tok.Offset == -1 {
 				tok.Offset = i
 			}
-			tok.Text += string(r)
+			// Use the bytes of the input rather than re-encoding the
+			// rune: for invalid UTF-8 the two differ in length, and the
+			// text must match what Offset points at.
+			tok.Text += s[i : i+size]
 		}
 		i += size
 	}
